@@ -171,6 +171,9 @@ def oracle(cfg, ops, out):
                         raise Bad("[dropped-ran] task %d was dropped and then run" % t)
                     if t not in queued:
                         raise Bad("[unknown-task] task %d started but its scheduling call has not returned success" % t)
+                    if queued[0] != t and cfg.get("free") and cfg["ex"] == "tp":
+                        queued.remove(t)       # free-running pool: start lines of two workers may be logged out of pop order
+                        queued.insert(0, t)
                     if queued[0] != t:
                         raise Bad("[order] task %d started before %d which was accepted earlier" % (t, queued[0]))
                     if sd_returned:
@@ -318,6 +321,11 @@ def run(ctx):
     drv = C.drv_path() if drv_ok else None
     n = 450 if ctx.tier == "quick" else 5000
     explore(ctx, h, drv, n, "main")
+    run_selfsd(ctx, h)
+    run_stress(ctx, h, drv, "asan")
+    if ctx.tier == "thorough":
+        ht = build("tsan")
+        run_stress(ctx, ht, drv, "tsan", variant="tsan")
     if ctx.proof_broken or ctx.corr_broken:
         ctx.log("obligation or correspondence broken: widening the search for a failing input")
         for i in range(3):
@@ -335,3 +343,201 @@ def replay(ctx, obj):
     print("first difference to the model:", d)
     ctx.case("replay")
     ctx.case("replay2")
+
+
+# ---------------------------------------------------------------- free-running runs: trace -> model path + oracle
+
+FREE_MAXQ = 4
+
+
+def trace_segments(lines, nsub):
+    """Group the totally ordered trace into per-thread segments = model steps, ordered by the line on which the
+    thread took the mutex.  Returns list of dict(ops=[...], ev=[...], snap=str|None, who=str)."""
+    segs, cur, joins = [], {}, {}
+    name = lambda T: ("w %d" % (T - 100)) if T >= 100 else ("c %d" % T)
+
+    def new(T, ops, ev=None):
+        s = dict(ops=ops, ev=list(ev or []), snap=None, T=T, who=name(T).replace(" ", ""))
+        segs.append(s)
+        cur[T] = s
+        return s
+    for ln in lines:
+        f = ln.split()
+        T, verb, a = int(f[0]), f[1], f[2:]
+        if verb == "call":
+            new(T, ["call %d %s %s" % (T, a[0], a[1])])["call"] = (a[0], int(a[1]))
+            cur[T] = None
+        elif verb == "lock":
+            new(T, ["step %s 0" % name(T)])
+        elif verb == "wake":
+            new(T, ["spur %s" % name(T), "step %s 0" % name(T)])
+        elif verb == "fin":
+            new(T, ["step %s 0" % name(T)], ["fin:" + a[0]])
+        elif verb == "joined":
+            joins[T] = joins.get(T, 0) + 1      # the model's join steps are placed where the call returns (the free happens there)
+        elif verb == "ret" and joins.get(T):
+            new(T, ["step %s 0" % name(T)] * joins.pop(T), ["ret:%d:%s:%s" % (T, a[0], a[1])])
+        else:
+            s = cur.get(T)
+            if s is None:
+                raise Bad("[trace] line `%s` outside any section" % ln)
+            if verb == "unlock":
+                s["snap"] = " ".join(a)
+            elif verb == "wait":
+                s["snap"] = " ".join(a[1:])
+                if a[0] == "q":
+                    s["ev"].append("block:%d" % T)
+            elif verb == "bcast":
+                s["ev"].append("bcast:" + a[0])
+            elif verb == "signal":
+                s["ev"].append("signal")
+            elif verb in ("start", "discard"):
+                s["ev"].append("%s:%s" % (verb, a[0]))
+            elif verb == "ret":
+                s["ev"].append("ret:%d:%s:%s" % (T, a[0], a[1]))
+            elif verb == "exit":
+                s["ev"].append("exit:%d" % (T - 100))
+            elif verb == "spawn":
+                s["ev"].append("spawn:%d" % (int(a[0]) - 100))
+            else:
+                raise Bad("[trace] unknown line `%s`" % ln)
+    return segs
+
+
+def norm_model_line(line):
+    """model result line -> (events without join/signal detail, struct part of the state with the queue abbreviated)"""
+    p = parse_line(line)
+    if p is None:
+        return None, None
+    evs = [("signal" if e.startswith("signal:") else e) for e in p[1] if not e.startswith("join:")]
+    st = p[2]
+    if st.startswith("freed"):
+        return evs, "freed"
+    st = st.split(" w=")[0]
+    m = re.match(r"q=(\S+) (.*)", st)
+    q = [] if m.group(1) == "-" else m.group(1).split(",")
+    qs = ",".join(q[:FREE_MAXQ]) or "-"
+    if len(q) > FREE_MAXQ:
+        qs += "+%d" % (len(q) - FREE_MAXQ)
+    return evs, "q=%s %s" % (qs, m.group(2))
+
+
+def validate_trace(cfg, head, lines, nsub, drv):
+    """returns (divergence message or None, oracle message or None, number of model steps)"""
+    try:
+        segs = trace_segments(lines, nsub)
+    except Bad as b:
+        return str(b), None, 0
+    ops = [head]
+    idx = []
+    for s in segs:
+        idx.append((len(ops), len(ops) + len(s["ops"])))
+        ops += s["ops"]
+    div = None
+    if drv:
+        rc, out, err = C.run_lines([drv, "c20"], ops, timeout=300)
+        if len(out) != len(ops):
+            div = "model driver produced %d lines for %d ops" % (len(out), len(ops))
+        else:
+            for s, (k0, k1) in zip(segs, idx):
+                evs, st = [], None
+                for k in range(k0, k1):
+                    e, st = norm_model_line(out[k])
+                    if not ops[k].startswith("spur"):
+                        evs += e or []
+                if "call" in s:
+                    if evs:
+                        div = "model refuses `%s`: %s" % (ops[k0], out[k0][:200])
+                        break
+                    continue
+                if evs != s["ev"] or (s["snap"] is not None and st != s["snap"]):
+                    div = "trace section of %s: impl events %s state `%s`, model `%s`" % (s["who"], s["ev"], s["snap"], out[k1 - 1][:300])
+                    break
+    # oracle on the same sections (API-level events only), in section order
+    o_ops, o_out = [head], ["new | -"]
+    sd_marked = False
+    workers_exited = 0
+    for s in segs:
+        ev = list(s["ev"])
+        if s["T"] == nsub and not sd_marked and "bcast:w" in ev:
+            ev.insert(ev.index("bcast:w") + 1 if "bcast:q" not in ev else ev.index("bcast:q") + 1, "join:%d" % nsub)
+            sd_marked = True
+        workers_exited += sum(1 for e in ev if e.startswith("exit:"))
+        o_ops.append(s["ops"][-1].replace("step c", "step c").replace("  ", " "))
+        o_out.append("%s: %s | %s w=- c=-" % (s["who"], ",".join(ev) or "-", s["snap"] or "-"))
+    o_ops.append("finish")
+    o_out.append("finish: - | freed w=%s c=I" % ",".join(["X"] * max(1, workers_exited)))
+    msg = oracle(dict(cfg, free=True), o_ops, o_out)
+    return div, msg, len(segs)
+
+
+def stress_specs(r, tier):
+    specs = []
+    n = 8 if tier == "quick" else 60
+    for _ in range(n):
+        ex = r.choice(["stw", "stw", "tp"])
+        nsub = r.choice([1, 2, 4, 6, 8])
+        ntasks = r.choice([30, 80, 150]) if tier == "quick" else r.choice([50, 200, 600])
+        spin = r.choice([0, 200, 3000, 20000])
+        sdmode = r.randrange(4)
+        if ex == "stw":
+            limit = r.choice([0, 1, 2, 3])
+            blocking = int(limit > 0 and r.random() < 0.6)
+            cb = int(r.random() < 0.7)
+            a, b, c = limit, blocking, cb
+            cfg = dict(ex=ex, limit=limit, blocking=blocking, cb=cb)
+        else:
+            nth, limit, factor = r.choice([1, 2, 4]), r.choice([0, 0, 2, 5]), r.choice([0, 1, 2])
+            a, b, c = nth, limit, factor
+            cfg = dict(ex=ex, limit=limit, blocking=0, cb=0)
+        specs.append((cfg, "stress %s %d %d %d %d %d %d %d %d" % (ex, a, b, c, nsub, ntasks, spin, sdmode, r.randrange(1 << 30)),
+                      "new %s %d %d %d %d" % (ex, a, b, c, nsub + 1), nsub))
+    return specs
+
+
+def run_stress(ctx, h, drv, label, variant="asan"):
+    r = C.Rng(ctx.seed, "c20/stress/" + label)
+    for cfg, op, head, nsub in stress_specs(r, ctx.tier):
+        rc, out, err = C.run_lines([h], [op], timeout=240)
+        kind = "free-%s-%s" % (cfg["ex"], variant)
+        ctx.case(op)
+        ctx.hist(kind)
+        if variant == "tsan" and "WARNING: ThreadSanitizer" in err:
+            m = re.search(r"WARNING: ThreadSanitizer: ([^\n(]*)", err)
+            fn = re.findall(r"#\d+ (\w+) ", err)
+            site = next((x for x in fn if x.startswith(("iwstw", "iwtp", "_worker"))), fn[0] if fn else "?")
+            ctx.fail(dict(kind="tsan", what=m.group(1).strip() if m else "?", site=site, ex=cfg["ex"]), dict(ops=[op], stderr=err[-3000:]),
+                     "ThreadSanitizer: %s in %s during `%s`" % (m.group(1).strip() if m else "?", site, op))
+            continue
+        if rc != 0 or not out or not out[0].startswith("stress-begin") or out[-1] != "stress-end":
+            from vlib.diff import san_site
+            k, fn = san_site(err)
+            ctx.fail(dict(kind="crash", site=fn, what=k, ex=cfg["ex"]), dict(ops=[op], stderr=err[-3000:], tail=out[-5:]),
+                     "free-running run `%s` ended with rc=%s %s in %s" % (op, rc, k, fn))
+            continue
+        if "overflow=1" in out[0] or "freed=0" in out[0]:
+            ctx.fail(dict(kind="oracle", cls="trace-incomplete", ex=cfg["ex"]), dict(ops=[op], head=out[0]), "stress run incomplete: " + out[0])
+            continue
+        div, msg, nsteps = validate_trace(cfg, head, out[1:-1], nsub, drv)
+        ctx.hist("free-sections", nsteps)
+        if drv:
+            ctx.cov["traces_validated_against_impl"] += 1
+        if div:
+            ctx.corr_broken.append("free-running trace is not a path of the model (`%s`): %s" % (op, div[:500]))
+            if len(ctx.corr_broken) <= 3:
+                ctx.log("DIVERGE(free)", op, div[:400])
+        if msg:
+            m = re.match(r"\[([\w-]+)\]", msg)
+            ctx.fail(dict(kind="oracle", cls=m.group(1) if m else "", ex=cfg["ex"]), dict(ops=[op], detail=msg), msg[:400])
+
+
+def run_selfsd(ctx, h):
+    for ex in ("stw", "tp"):
+        rc, out, err = C.run_lines([h], ["selfsd " + ex], timeout=60)
+        ctx.case("selfsd " + ex)
+        ctx.hist("selfsd")
+        want = "selfsd %s rc=assertion b-ran=1 done" % ex
+        if not out or out[0] != want:
+            ctx.fail(dict(kind="oracle", cls="self-shutdown-hang" if out and "hang" in out[0] else "self-shutdown", ex=ex),
+                     dict(ops=["selfsd " + ex], out=out[:2], stderr=err[-1500:]),
+                     "a task calling shutdown on its own executor: expected `%s`, got `%s`" % (want, (out or ["<nothing>"])[0]))
